@@ -37,7 +37,9 @@ RULE = ('(history) sequences of up to 40 operations over the public API: constru
         'line events (quick) / opcodes (thorough) following a drawn schedule (used cyclically); every call '
         'result must equal its fresh-interpreter result. (saturation) in a forked pristine '
         'process, `fill` distinct calls of one kind (table keys, integers, strings, '
-        'timestamps, decimals, method frames, headers; fill = 0 or 2^k-1, 2^k, 2^k+1 for '
+        'timestamps, decimals, method frames, headers; decoded tables with never-seen keys '
+        '(optionally after one refused key), decoded decimals, decoded frames of three '
+        'kinds; fill = 0 or 2^k-1, 2^k, 2^k+1 for '
         'k = 4..12) are made first, then 2-3 threads make fresh calls of that kind under a '
         'drawn schedule - so bounded caches keyed by value are exercised at and around '
         'their capacity, including concurrent eviction. Non-trivial: history contains >= 1 '
@@ -302,24 +304,37 @@ def prim_encode_ops():
     return st.tuples(st.just('prim_encode'), st.sampled_from(calls.PRIM_ENC), vals)
 
 
-def twin_ops():
-    """pairs of values that compare (and hash) equal but must encode differently or are
-    otherwise distinguishable - the classic way a memo cache goes wrong"""
+def _twin_pairs():
     import decimal as _d
-    pairs = st.one_of(
-        st.sampled_from([
+    return [
             [True, 1], [1, True], [False, 0], [0, False], [0.0, -0.0], [-0.0, 0.0],
             [_d.Decimal('1.0'), _d.Decimal('1.00')], [_d.Decimal('1.00'), _d.Decimal('1')],
             [_d.Decimal('0'), _d.Decimal('-0')], [_d.Decimal('1E+2'), _d.Decimal('100')],
             [{'a': 1}, {'a': True}], [[1, 0], [True, False]], [[0.0], [-0.0]],
             [{'k': _d.Decimal('2.50')}, {'k': _d.Decimal('2.5')}],
-            [1, 1.0], [255, 255.0]]),
+            [1, 1.0], [255, 255.0],
+            # transparent proxies: type() is the proxy class whatever they stand for
+            [canon.LazyProxy({'a': 1}), canon.LazyProxy([1, 2])],
+            [canon.LazyProxy([1, 2]), canon.LazyProxy({'a': 1})],
+            [canon.LazyProxy('text'), canon.LazyProxy({'a': 'b'})],
+            [canon.LazyProxy({'k': 2}), canon.LazyProxy([])],
+            [canon.IntSub(40000), 40000], [canon.CIStr('Key'), 'key']]
+
+
+TWIN_FNS = ['encode_table_value', 'timestamp', 'decimal', 'floating_point', 'octet',
+            'table_integer', 'field_array', 'field_table', 'long_long_int', 'boolean',
+            'short_string', 'long_string']
+
+
+def twin_ops():
+    """pairs of values that compare (and hash) equal but must encode differently or are
+    otherwise distinguishable - the classic way a memo cache goes wrong"""
+    pairs = st.one_of(
+        st.sampled_from(_twin_pairs()),
         st.builds(lambda y, m, us, o: list(S.fold_pair(y, m, us))[::1 if o else -1],
                   st.integers(1971, 2105), st.integers(0, 59), st.integers(0, 999999),
                   st.booleans()))
-    fns = st.sampled_from(['encode_table_value', 'encode_table_value', 'timestamp',
-                           'decimal', 'floating_point', 'octet', 'table_integer',
-                           'field_array', 'field_table', 'long_long_int', 'boolean'])
+    fns = st.sampled_from(TWIN_FNS + ['encode_table_value'] * 3)
     return st.tuples(st.just('twin'), fns, pairs)
 
 
@@ -419,6 +434,19 @@ def default_then_mutate(tier, shard, nshards):
                             ['construct_default', n], ['mutate', 1, 2],
                             ['toggle', True], ['construct_default', n],
                             ['toggle', False], ['construct_default', n]]})
+    return out[shard::nshards]
+
+
+def twins_all(tier, shard, nshards):
+    """every twin pair x every encoder, both orders, each as its own short history"""
+    out = []
+    years = (1975, 2021, 2104)
+    pairs = _twin_pairs() + [list(S.fold_pair(y, 30, 5)) for y in years]
+    for pair in pairs:
+        for fn in TWIN_FNS:
+            for order in (pair, pair[::-1]):
+                out.append({'ops': [['twin', fn, list(order)], ['toggle', True],
+                                    ['twin', fn, list(order)], ['toggle', False]]})
     return out[shard::nshards]
 
 
@@ -536,7 +564,8 @@ def cross_thread_cases(tier):
 # ---------------------------------------------------------------- saturation x schedule
 
 FILL_LEVELS = sorted({0} | {2 ** k + d for k in range(4, 13) for d in (-1, 0, 1)})
-SAT_KINDS = ['keys', 'ints', 'strs', 'timestamps', 'decimals', 'frames', 'headers']
+SAT_KINDS = ['keys', 'ints', 'strs', 'timestamps', 'decimals', 'frames', 'headers',
+             'decode-tables', 'decode-decimals', 'decode-frames', 'decode-after-refusal']
 
 
 def sat_call(kind, i):
@@ -554,6 +583,24 @@ def sat_call(kind, i):
                 datetime.timedelta(seconds=i * 61)]
     if kind == 'decimals':
         return ['prim_encode', 'decimal', decimal.Decimal(i).scaleb(-(i % 5))]
+    if kind in ('decode-tables', 'decode-after-refusal'):
+        # a table with a never-seen key (and, as call 0 of 'decode-after-refusal', one
+        # whose key is not UTF-8, which the decoder must refuse - and forget)
+        key = b'\xff\xfe' if (kind == 'decode-after-refusal' and i == 0) else \
+            b'dk-%07d' % i
+        entry = bytes([len(key)]) + key + b'I' + (i % 2 ** 31).to_bytes(4, 'big')
+        return ['prim_decode', 'field_table', len(entry).to_bytes(4, 'big') + entry]
+    if kind == 'decode-decimals':
+        return ['prim_decode', 'decimal', bytes([i % 256]) + (i * 7919 % 2 ** 31).to_bytes(
+            4, 'big')]
+    if kind == 'decode-frames':
+        body = b'body-%07d' % i
+        frames = [b'\x03\x00\x07' + len(body).to_bytes(4, 'big') + body + b'\xce',
+                  b'\x01\x00\x01\x00\x00\x00\x0d\x00\x3c\x00\x50' +
+                  i.to_bytes(8, 'big') + b'\x00\xce',
+                  b'\x02\x00\x01\x00\x00\x00\x0e\x00\x3c\x00\x00' +
+                  i.to_bytes(8, 'big') + b'\x00\x00\xce']
+        return ['unmarshal', frames[i % 3]]
     if kind == 'frames':
         return ['marshal', {'kind': 'method', 'cls': 'Queue.Declare', 'ch': 1,
                             'args': {'ticket': 0, 'queue': 'q-%07d' % i,
@@ -588,6 +635,8 @@ def check_saturation(case):
             encode.support_deprecated_rabbitmq(False)
             for i in range(fill):
                 calls.execute(sat_call(kind, i))
+            if kind == 'decode-after-refusal' and fill == 0:
+                calls.execute(sat_call(kind, 0))
 
             def body(cl):
                 return lambda: [calls.execute(c) for c in cl]
@@ -650,6 +699,25 @@ def saturation_sweep(tier, shard, nshards):
     return out[shard::nshards]
 
 
+def first_use_sweep(kinds):
+    """the very first calls of a pristine process made by two threads, one of them k
+    traced lines ahead of the other (k = 0..59): lazily built tables / caches must not be
+    visible half-built"""
+    def cases(tier, shard, nshards):
+        out = []
+        for kind in kinds:
+            for k in range(60):
+                out.append({'kind': kind, 'fill': 0, 'per_thread': [1, 1],
+                            'schedule': [0] * k + [1] * 300 + [0] * 300,
+                            'opcode': False})
+                if k % 4 == 0:
+                    out.append({'kind': kind, 'fill': 0, 'per_thread': [2, 2, 1],
+                                'schedule': [1] * k + [0, 2] * 150 + [1] * 300,
+                                'opcode': False})
+        return out[shard::nshards]
+    return cases
+
+
 COMPONENTS = [
     Component('defaults', check_history, cases=default_then_mutate,
               shards={'quick': 8, 'thorough': 8},
@@ -659,6 +727,10 @@ COMPONENTS = [
               shards={'quick': 8, 'thorough': 8},
               describe='every class: one long-lived object marshalled, re-assigned, '
                        'marshalled again; also across a switch toggle'),
+    Component('twins-all', check_history, cases=twins_all,
+              shards={'quick': 8, 'thorough': 8},
+              describe='every equal-comparing twin pair (numbers, decimals, fold twins, '
+                       'proxies, int / str subclasses) x every encoder, both orders'),
     Component('history', check_history, strategy=history_cases,
               budget={'quick': 2400, 'thorough': 48000},
               describe='generated API call histories vs fresh interpreter'),
@@ -670,6 +742,10 @@ COMPONENTS = [
               distinct_by_construction=True,
               describe='every value kind x every power-of-two fill level +-1 (16..4096) '
                        'x 5 fixed two-thread schedules, each in a forked pristine process'),
+    Component('first-use', check_saturation, cases=first_use_sweep(SAT_KINDS),
+              distinct_by_construction=True,
+              describe='the first calls of a forked pristine process made by 2-3 '
+                       'threads, one of them 0..59 traced lines ahead (every value kind)'),
     Component('saturation', check_saturation, strategy=saturation_cases,
               budget={'quick': 1600, 'thorough': 32000},
               describe='drawn kind / fill level / schedule; threads make fresh calls '
